@@ -16,7 +16,7 @@ from vlib.core import *
 
 SRCS = ["harness/c10.cpp"]
 REPO_CPP = ["babylon/concurrent/*.cpp"]
-MODES = ("tl", "acc", "big", "fix-open-stop")
+MODES = ("tl", "acc", "big", "fix-open-stop", "rr-tl", "rr-acc", "wrap")
 
 
 def warm():
@@ -39,11 +39,14 @@ def load_corpus():
     return out
 
 
-def features(lines):
+def features(lines, cap=0):
     """what happened in one trace (for the distribution and the non-triviality rule)"""
     f = {"stop_while_region_open": 0, "post_marker_wait": 0, "blocked_push": 0, "ring_wrap_pop": 0,
-         "held_by_region": 0, "nosleep_pass": 0, "batch_retire": 0, "reclaims": 0}
+         "held_by_region": 0, "nosleep_pass": 0, "batch_retire": 0, "reclaims": 0, "retire_in_own_region": 0,
+         "blocked_across_version_wrap": 0}
     open_regions = set()
+    own_region = {}
+    wrap_ticket = {}
     stopper = None
     marker_ticket = None
     marker_popped = False
@@ -64,8 +67,12 @@ def features(lines):
             e = w[2]
             if e == "region_open":
                 open_regions.add(w[3])
+                own_region[t] = w[3]
             elif e == "region_close":
                 open_regions.discard(w[3])
+                own_region.pop(t, None)
+            elif e in ("retire_begin", "retire_at_begin") and t in own_region:
+                f["retire_in_own_region"] = 1
             elif e == "stop_begin":
                 stopper = t
                 if open_regions:
@@ -80,6 +87,7 @@ def features(lines):
             if t == stopper and marker_ticket is None:
                 marker_ticket = int(w[5])
             in_publish[t] = True
+            wrap_ticket[t] = int(w[5])
         elif k == "st" and w[2].startswith("q.f") and t != gc:
             in_publish[t] = False
         elif k == "sleep":
@@ -90,6 +98,8 @@ def features(lines):
                     f["held_by_region"] = 1
             elif in_publish.get(t):
                 f["blocked_push"] = 1
+                if cap and wrap_ticket.get(t, 0) // cap == 32768:
+                    f["blocked_across_version_wrap"] = 1
         elif t == gc and k == "ld" and w[2] == "q.pop":
             in_consume, pops_in_consume = True, 0
             if last_gc_kind == "reclaim":
@@ -134,8 +144,10 @@ def classify(ctx, r, mode, env, lockstep, dist, distinct):
             dist["replay_ok"] += 1
         else:
             dist["replay_diverge"] += 1
-            ctx.broke("correspondence", "E-CONC L2 c10 mode=%s seed=%d" % (mode, r["seed"]), "%s\n%s" % (r["replay"], text))
-    ft = features(r["lines"])
+            if dist["replay_diverge"] <= 6:     # record the first few, count the rest: divergences never end the search
+                ctx.broke("correspondence", "E-CONC L2 c10 mode=%s seed=%d" % (mode, r["seed"]), "%s\n%s" % (r["replay"], text))
+    cap = next((int(h[4:]) for h in r["header"] if h.startswith("cap=")), 0)
+    ft = features(r["lines"], cap)
     nontrivial = False
     for k, v in ft.items():
         if k == "reclaims":
@@ -174,9 +186,7 @@ def run(ctx):
         return
     if drv is None:
         return
-    n = 400 if ctx.quick else 12000
-    if ctx.broken:
-        n *= 5
+    n = 300 if ctx.quick else 12000
     seed0 = ctx.seed * 1000003
     dist = {"modes": {}, "verdicts": {}, "replay_ok": 0, "replay_diverge": 0, "oracle": 0, "races": 0, "max_trace": 0,
             "features": {}, "reclaims": 0, "corpus": 0}
@@ -188,28 +198,41 @@ def run(ctx):
         dist["corpus"] += len(runs)
         for r in runs:
             classify(ctx, r, mode, env, True, dist, distinct)
-    plan = [("tl", n, {}), ("acc", n, {}), ("tl", n // 2, {"VRT_STRATEGY": "pct"}), ("acc", n // 2, {"VRT_STRATEGY": "pct"}),
-            ("fix-open-stop", n // 4, {}), ("big", max(20, n // 20), {})]
+    plan = [("tl", n, {}), ("acc", n, {}), ("rr-tl", n, {}), ("rr-acc", n, {}),
+            ("tl", n // 2, {"VRT_STRATEGY": "pct"}), ("acc", n // 2, {"VRT_STRATEGY": "pct"}),
+            ("rr-tl", n // 2, {"VRT_STRATEGY": "pct"}), ("rr-acc", n // 2, {"VRT_STRATEGY": "pct"}),
+            ("fix-open-stop", n // 4, {}), ("wrap", n // 8, {}), ("big", max(20, n // 20), {})]
+
+    def enough():
+        # only concrete failing inputs end the search early; a broken proof obligation / translator or a
+        # diverging correspondence never does — they multiply the case count instead
+        return len(ctx.failing) > 8
+
     for mode, cnt, env in plan:
-        if len(ctx.failing) + len(ctx.broken) > 8:
+        if enough():
             break
+        if ctx.broken:
+            cnt *= 5   # search mode: a proof obligation / the translator / the correspondence broke, look harder
         runs = ctx.econc(exe, drv, [mode], seed0, cnt, env=env)
         dist["modes"][mode + ("/pct" if env else "")] = len(runs)
         for r in runs:
             classify(ctx, r, mode, env, True, dist, distinct)
             if len(samples) < 1 and mode == "tl" and 80 < len(r["lines"]) < 200 and r["verdict"] == "ok":
                 samples.append(r["lines"][:80])
-            if len(ctx.failing) + len(ctx.broken) > 8:
+            if enough():
                 break
     ctx.cov["distribution"] = dist
     ctx.cov["distinct_nontrivial"] = len(distinct)
     ctx.cov["traces_validated_against_impl"] = dist["replay_ok"]
     ctx.cov["rule"] = ("one case = one seeded program (queue capacity 1-8 [big: 128/256], 1-3 retiring threads x 1-6 operations among retire(r), "
+                       "[rr-*: 1-2 reader-retirer threads that retire inside their own region and then take nested locks of depth 2-3 after that retirement / a tick; "
+                       "wrap: capacity 1-2 with the ring preset two rounds before the 16-bit slot version wraps, a held batch + a full ring + a retire that must block across the wrap] "
                        "tick + retire(r,e), batch retirement [big: 60-180 each], 0-2 region threads x 1-3 regions held 0-42 ms of virtual time, thread-local "
                        "or Accessor style (opened by one thread, closed by another), stop() after the retiring threads returned plus a 0-25 ms delay, "
                        "so often while regions are open) under one seeded schedule (random with 5 stickiness levels, or PCT); non-trivial = the trace shows at "
                        "least one of: stop() called while a region is open, tasks reclaimed only after the collector slept with the marker already consumed, "
-                       "a retire blocked on a full queue, a try_pop_n split by the ring end, a pass held back by a pinned slot, a pass without sleep; "
+                       "a retire blocked on a full queue, a try_pop_n split by the ring end, a pass held back by a pinned slot, a pass without sleep, a retirement inside the retiring thread's own region, "
+                       "a retire blocked across the slot-version wrap; "
                        "distinct by trace hash")
     ctx.cov["samples"] = samples or [["<no sample>"]]
 
